@@ -448,6 +448,7 @@ def with_cfg(rng: random.Random, case: dict, outputs: list[str] | None = None) -
             cfg["select"] = "**"
         else:
             cfg["select"] = rng.sample(outs, rng.randint(1, min(3, len(outs))))
+            cfg["selectAsTuple"] = rng.random() < 0.4
         cfg["onMissing"] = rng.choice(["ignore", "warn", "error"])
     c["cfg"] = cfg
     return c
